@@ -315,6 +315,14 @@ def run(ck):
             c['echo'] = True
         c.update(part='io', key=f"io|{'.'.join(c['reactants'])}>{'.'.join(c['reagents'])}>{'.'.join(c['products'])}|{int(bool(c.get('echo')))}")
         cases.append(c)
+    # radicals and multi-component molecules in every role, with and without reagents
+    rads = ['C[CH2]', '[CH3]', 'C[O]', '[Br]', 'C[CH]C.[Na+].[Cl-]']
+    for k, (a, b, c) in enumerate(itertools.product(range(3), repeat=3)):
+        c = {'reactants': [rads[(k + j) % 5] if a > j else 'CCBr' for j in range(a)] or ['CCBr'],
+             'reagents': [rads[(k + j + 1) % 5] if j % 2 == 0 else 'CCO' for j in range(b)],
+             'products': [rads[(k + j + 2) % 5] if j != 1 else '[Na+].[Cl-]' for j in range(c)]}
+        c.update(part='io', key=f"io|{'.'.join(c['reactants'])}>{'.'.join(c['reagents'])}>{'.'.join(c['products'])}|0")
+        cases.append(c)
     io_cases = ck.select('read-back', cases)
     cases = []
     small = [s for s in pool() if len(s) <= 30] + SPECIAL
